@@ -147,6 +147,8 @@ async def execute(net, hyg, plan):
         for i, st in enumerate(script):
             s.step_index = i
             s.current_step = st
+            # a transfer command right behind REST: if it is refused, the prepared data connection is kept for the retry
+            s.keep_data_on_refusal = bool(i and script[i - 1][0] == "cmd" and script[i - 1][1].startswith("REST ") and st[0] == "xfer")
             ok = await s.step(st)
             if fired["step"] is not None or not ok:
                 break
@@ -209,7 +211,37 @@ async def execute(net, hyg, plan):
                 probe = [st2 for st2 in PROBE if st2 != ["epsv"]] if reuse else PROBE
                 # the failed command itself works when it is simply given again (nothing of the failed attempt lingers)
                 redo = None
-                if st[0] == "xfer" and st[1] in ("STOR", "APPE") and not marks and s.alive:
+                prev = script[fired["step"] - 1] if fired["step"] else None
+                after_rest = (st[0] == "xfer" and st[1] in ("RETR", "STOR") and not marks and prev is not None and prev[0] == "cmd"
+                              and prev[1].startswith("REST ") and s.pasv_port is not None)
+                if after_rest:
+                    # the restart offset was for the command that failed: the same command given again at once (same listener, no
+                    # other command in between) transfers the whole file
+                    mon["retry_after_rest"] = mon.get("retry_after_rest", 0) + 1
+                    s.keep_data_on_refusal = False
+                    await s.step(list(st))
+                    rc_ = [c for c in s.outcomes[-1] if len(c) == 3 and c.isdigit()]
+                    if rc_[-1:] == ["226"]:
+                        if st[1] == "RETR":
+                            whole = corpus_tree([""]).get(st[2])
+                            got_ = s.downloads[-1][2] if s.downloads else None
+                            if got_ != whole:
+                                viol.append({"key": f"restart-offset-outlives-failed-command:{site}",
+                                             "msg": f"{where}: REST, the transfer command failed (451); given again at once it delivered "
+                                                    f"{len(got_ or b'')} of {len(whole or b'')} bytes"})
+                        else:
+                            stored = w.tree().get(st[2])
+                            want_ = payload_bytes(st[3], st[6] if len(st) > 6 else 0)
+                            if stored != want_:
+                                viol.append({"key": f"restart-offset-outlives-failed-command:{site}",
+                                             "msg": f"{where}: REST, the upload command failed (451); given again at once it stored "
+                                                    f"{len(stored) if isinstance(stored, bytes) else stored} bytes, sent {len(want_)}"})
+                    elif not (rc_ and rc_[0][0] == "5"):
+                        viol.append({"key": f"retry-refused:{site}", "msg": f"{where}: the same command given again answered {s.outcomes[-1]}"})
+                    before = len(s.outcomes)
+                    reuse = False
+                    probe = PROBE
+                if st[0] == "xfer" and st[1] in ("STOR", "APPE") and not marks and s.alive and not after_rest:
                     mon["retry_same_command"] = mon.get("retry_same_command", 0) + 1
                     if not reuse or True:
                         await s.step(["epsv"])
